@@ -18,6 +18,7 @@ VERIF_FAIL = [
     (r"unable to prove pre-?condition of closure|closure.*precondition", "precondition"),
     (r"precondition not satisfied", "precondition"),
     (r"precondition not met", "precondition"),
+    (r"requires not satisfied", "assert_requires"),      # premise of an `assert(..) by(..) requires ..` step
     (r"index in bounds|index out of bounds", "index"),
     (r"assertion failed", "assertion"),
     (r"possible arithmetic underflow/overflow", "overflow"),
